@@ -137,6 +137,9 @@ def attr_shape(spec, e, a):
     if e['bases']: ctx.append('@subclass')
     if any(a['name'] in k for k in e['keys']): ctx.append('@composite_key')
     if any(a['name'] in k for k in e['indexes']): ctx.append('@composite_index')
+    subs = [x for x in spec['entities'] if x is not e and _owner(spec, x, a['name']) == e['name']]
+    if any(a['name'] in k for x in subs for k in x['keys']): ctx.append('@subclass_composite_key')
+    if any(a['name'] in k for x in subs for k in x['indexes']): ctx.append('@subclass_composite_index')
     if e['pk'] and a['name'] in e['pk']: ctx.append('@composite_pk')
     return '%s(%s%s)%s' % (a['cls'], typ, ''.join(',' + f for f in flags), ''.join(ctx))
 
@@ -189,6 +192,7 @@ def compare(spec, md, obs, dialect, P):
             if c['name'] in ocols: P.add('column-declared-twice', 'column', '%r.%r' % (t, c['name']))
             ocols[c['name']] = c
         used, pkcols, fk_expect, n_auto = [], [], [], 0
+        may_unique, may_index = set(), set()        # column lists that a declaration explains
         hier = hierarchy(spec, r)
         root_e = ents[r]
         declared_pk = root_e['pk'] or [a['name'] for a in root_e['attrs'] if a['cls'] == 'PrimaryKey']
@@ -253,6 +257,10 @@ def compare(spec, md, obs, dialect, P):
                     if 'sql_default' in a['opts'] and (oc['default'] is None or str(a['opts']['sql_default']) not in str(oc['default'])):
                         P.add('sql-default-lost', shape, '%r.%r default %r' % (t, cname, oc['default']))
                 if in_pk: pkcols.append((declared_pk.index(a['name']), cols))
+                if cols:
+                    if a['opts'].get('unique') or a['cls'] == 'PrimaryKey' or \
+                       (a['rel'] and find_attr(spec, a['rev'][0], a['rev'][1])['cls'] != 'Set'): may_unique.add(tuple(cols))
+                    if a['opts'].get('index') or (a['rel'] and a['opts'].get('index') is not False): may_index.add(tuple(cols))
                 # unique / index declared on the attribute itself
                 if a['opts'].get('unique') and cols:
                     if not any(tuple(u) == tuple(cols) for _, u in ot['uniques']):
@@ -270,10 +278,12 @@ def compare(spec, md, obs, dialect, P):
                         P.add('index-name-ignored', 'index=<name>', 'declared %r, found %r' % (ix, found))
             for key in e['keys']:
                 cols = tuple(c for n in key for c in md['cols'].get((e['name'], n)) or md['cols'].get((_owner(spec, e, n), n), ()))
+                may_unique.add(cols)
                 if not any(tuple(u) == cols for _, u in ot['uniques']):
                     P.add('unique-missing', 'composite_key', 'no unique constraint on %r%r' % (t, cols))
             for key in e['indexes']:
                 cols = tuple(c for n in key for c in md['cols'].get((e['name'], n)) or md['cols'].get((_owner(spec, e, n), n), ()))
+                may_index.add(cols)
                 if not any(tuple(c) == cols for _, c, _u in ot['indexes']) and not any(tuple(u) == cols for _, u in ot['uniques']):
                     P.add('index-missing', 'composite_index', 'no index on %r%r' % (t, cols))
         # primary key
@@ -316,6 +326,12 @@ def compare(spec, md, obs, dialect, P):
                       'declared %r, found %r' % (declared, f['name']))
             _fk_types(P, shape, obs, dialect, t, f)
         for cols in ofks: P.add('extra-fk', 'fk', '%r has an unexplained foreign key on %r' % (t, cols))
+        # every foreign key (unless declared index=False) is the leading part of an index, a unique constraint or the primary key
+        for e, a, cols in fk_expect:
+            if a['opts'].get('index') is False: continue
+            if not _led(ot, cols): P.add('fk-index-missing', attr_shape(spec, e, a), 'no index of %r starts with the foreign key columns %r' % (t, cols))
+        # every unique constraint / index is over exactly the columns of a declaration
+        _unexplained(P, t, ot, want_pk, may_unique, may_index, 'entity-table')
     # ---------------- many-to-many tables
     seen = set()
     for (en, an), m in sorted(md['m2m'].items()):
@@ -359,6 +375,7 @@ def compare(spec, md, obs, dialect, P):
                 P.add('on-delete', shape, 'm2m %r%r has ON DELETE %s' % (t, tuple(cols), f['on_delete']))
             _fk_types(P, shape, obs, dialect, t, f)
         for cols in ofks: P.add('extra-fk', shape, '%r has an unexplained foreign key on %r' % (t, cols))
+        _unexplained(P, t, ot, allcols, set(), set(tuple(cols) for _, cols in sides), shape)
         # options declared on one side: column(s)= / fk_name= of a Set name the link columns (and their foreign key)
         # that reference the Set's *target*; index= names the index of the link columns that reference the *declaring*
         # entity; on a symmetric Set the plain options belong to `columns`, the reverse_* options to `reverse_columns`
@@ -377,12 +394,34 @@ def compare(spec, md, obs, dialect, P):
             if want and f is not None and dialect != 'sqlite' and f['name'] != want:
                 P.add('fk-name-ignored', 'Set(%sfk_name=)' % pre, 'declared %r, foreign key on %r is named %r' % (want, tuple(own_cols), f['name']))
             want = sa['opts'].get(pre + 'index')
+            # the link columns that reference the declaring entity are the leading part of an index or of the primary key
+            if want is not False and tuple(cols_to_owner) in fk_by_cols and not _led(ot, tuple(cols_to_owner)):
+                P.add('fk-index-missing', shape, 'no index of %r starts with the foreign key columns %r' % (t, tuple(cols_to_owner)))
             if isinstance(want, str):
                 found = [n for n, c, u in ot['indexes'] if tuple(c) == tuple(cols_to_owner)]
                 if found and want not in found:
                     P.add('index-name-ignored', 'Set(%sindex=<name>)' % pre, 'declared %r, index on %r is named %r' % (want, tuple(cols_to_owner), found))
     extra = [t for t in otables if t not in expected_tables]
     if extra: P.add('extra-table', 'table', 'unexplained tables %r' % (extra,))
+
+def _led(ot, cols):
+    """an index, a unique constraint or the primary key of the observed table starts with cols"""
+    cols = tuple(cols); n = len(cols)
+    return any(tuple(c[:n]) == cols for _, c, _u in ot['indexes']) or any(tuple(c[:n]) == cols for _, c in ot['uniques']) or \
+           tuple(ot['pk'][:n]) == cols
+
+def _unexplained(P, t, ot, pk, may_unique, may_index, shape):
+    seen = []
+    for _, c in ot['uniques']:
+        c = tuple(c)
+        if c != tuple(pk) and c != tuple(ot['pk']) and c not in may_unique:
+            P.add('unique-unexplained', shape, '%r has a unique constraint on %r that no declaration asks for' % (t, c))
+    for _, c, u in ot['indexes']:
+        c = tuple(c)
+        if u: continue      # judged above
+        if c not in may_index: P.add('index-unexplained', shape, '%r has an index on %r that no declaration asks for' % (t, c))
+        if c in seen: P.add('index-declared-twice', shape, '%r has two indexes on %r' % (t, c))
+        seen.append(c)
 
 def _owner(spec, e, attrname):
     """entity (e or one of its bases) that declares attrname"""
